@@ -270,3 +270,70 @@ Proof.
 Qed.
 
 End All.
+
+(* ================= the assembled statement ================= *)
+(* what holds of every call on a record u (all seven: result canonical again - so the statement applies along
+   histories -, frame, get-after-set, and parser agreement for arguments in the stated classes) *)
+Definition all_calls (dbg : bool) (hp hpo : list N -> result host) (hd : host -> list N) (u : url) : Prop :=
+  (forall x u', usv_list x -> set_fragment dbg u (Some x) = Some u' -> nlen (ser u') <= U32_MAX_P ->
+     Canon hp hpo hd u' /\ unchanged_but_fragment dbg u u' /\ path u' = path u
+     /\ fragment dbg u' = Some (Some (tnl_text T_FRAGMENT x))
+     /\ (first_ok (rev (35 :: x)) -> parse_url dbg hp hpo hd None None (splice_fragment u x) = POk u'))
+  /\ (forall x u', usv_list x -> set_query dbg u (Some x) = Some u' -> nlen (ser u') <= U32_MAX_P ->
+     Canon hp hpo hd u' /\ unchanged_but_query dbg u u' /\ path u' = path u
+     /\ query dbg u' = Some (Some (query_text u x))
+     /\ (no_hash x = true -> (fragment_start u = None -> first_ok (rev (63 :: x))) ->
+         parse_url dbg hp hpo hd None None (splice_query u x) = POk u'))
+  /\ (forall n u', n <= 65535 -> set_port dbg u (Some n) = Some (u', SOk) -> nlen (ser u') <= U32_MAX_P ->
+     Canon hp hpo hd u' /\ same_ids dbg u u' /\ same_back dbg u u'
+     /\ (exists sch, scheme u = Some sch /\ port u' = norm_port sch (Some n))
+     /\ parse_url dbg hp hpo hd None None (splice_port u n) = POk u')
+  /\ (forall y u', usv_list y -> set_password dbg u (Some y) = Some (u', SOk) -> nlen (ser u') <= U32_MAX_P ->
+     Canon hp hpo hd u'
+     /\ (scheme u' = scheme u /\ username dbg u' = username dbg u /\ host_str u' = host_str u /\ port u' = port u
+         /\ same_back dbg u u')
+     /\ password dbg u' = Some (match y with c :: r => Some (userinfo_enc (c :: r)) | [] => None end)
+     /\ (y <> [] -> forallb (plainc (sp_of u)) y = true ->
+         parse_url dbg hp hpo hd None None (splice_password u y) = POk u'))
+  /\ (forall x u', usv_list x -> set_username dbg u x = Some (u', SOk) -> nlen (ser u') <= U32_MAX_P ->
+     Canon hp hpo hd u'
+     /\ (scheme u' = scheme u /\ password dbg u' = password dbg u /\ host_str u' = host_str u /\ port u' = port u
+         /\ same_back dbg u u')
+     /\ (exists cur, username dbg u = Some cur
+           /\ username dbg u' = Some (if list_eqb cur (utf8_encode x) then cur else userinfo_enc x))
+     /\ (forallb (fun c => plainc (sp_of u) c && negb (c =? 58)) x = true ->
+         parse_url dbg hp hpo hd None None (splice_username u x) = POk u'))
+  /\ (forall x u', has_authority_b u = true -> usv_list x -> set_path dbg u x = Some u' -> nlen (ser u') <= U32_MAX_P ->
+     wfh u' /\ same_front dbg u u' /\ query dbg u' = query dbg u /\ fragment dbg u' = fragment dbg u
+     /\ (exists P, path u' = Some P /\ new_path_ok P)
+     /\ (forallb no_qh x = true -> path_arg_ok x ->
+         Canon hp hpo hd u'
+         /\ ((query_start u = None -> fragment_start u = None -> first_ok (rev x)) ->
+             parse_url dbg hp hpo hd None None (splice_path u x) = POk u')))
+  /\ (forall x u', has_authority_b u = true -> forallb (hostarg (sp_of u)) x = true ->
+     set_host dbg hp hpo hd u (Some x) = Some (u', SOk) -> empty_host_ok u u' -> nlen (ser u') <= U32_MAX_P ->
+     Canon hp hpo hd u'
+     /\ (exists h, (if sp_of u then hp x else hpo x) = Ok h /\ host_set_post dbg hd u u' h)
+     /\ (usv_list x -> (nskipn (host_end u) (ser u) = [] -> first_ok (rev x)) ->
+         parse_url dbg hp hpo hd None None (splice_host u x) = POk u')).
+
+Theorem all_canon dbg hp hpo hd u : HostOK2 hp hpo hd -> Canon hp hpo hd u -> all_calls dbg hp hpo hd u.
+Proof.
+  intros HOK C. unfold all_calls.
+  split; [intros x u'; exact (all_set_fragment dbg hp hpo hd HOK u x u' C)|].
+  split; [intros x u'; exact (all_set_query dbg hp hpo hd HOK u x u' C)|].
+  split; [intros n u'; exact (all_set_port dbg hp hpo hd HOK u n u' C)|].
+  split; [intros y u'; exact (all_set_password dbg hp hpo hd HOK u y u' C)|].
+  split; [intros x u'; exact (all_set_username dbg hp hpo hd HOK u x u' C)|].
+  split; [intros x u'; exact (all_set_path dbg hp hpo hd HOK u x u' C) | intros x u'; exact (all_set_host dbg hp hpo hd HOK u x u' C)].
+Qed.
+
+(* C06 for every record of a ReachC6 history: a failing call leaves the record (atomic_all: every record), and a
+   successful call in the classes above has frame, get-after-set, parser agreement, and stays in the class *)
+Theorem all_reach dbg hp hpo hd u : HostOK2 hp hpo hd -> ReachC6 dbg hp hpo hd u ->
+  Canon hp hpo hd u /\ wfh u /\ auth_end_ok u /\ all_calls dbg hp hpo hd u.
+Proof.
+  intros HOK R. pose proof (ReachC6_Canon dbg hp hpo hd HOK u R) as C.
+  split; [exact C|]. split; [exact (Canon_wfh dbg hp hpo hd HOK u C)|]. split; [exact (Canon_auth_end_ok hp hpo hd u C)|].
+  exact (all_canon dbg hp hpo hd u HOK C).
+Qed.
